@@ -379,6 +379,11 @@ def hist_items(tier, seed, parts):
     if parts is None or "wind" in parts:
         specs.append(("P2T3_reduced5_wind(5,20,10)", 2, 3, "reduced", all_cfgs(menus=[0, 3, 4], winds=[5.0]), [5.0, 20.0, 10.0]))
         specs.append(("P2T3_reduced5_wind(20,5,20)", 2, 3, "reduced", all_cfgs(menus=[0, 3, 4], winds=[20.0]), [20.0, 5.0, 20.0]))
+        # calm steps (wind exactly 0: the growth law has no finite duration, the sea window shrinks to its U -> 0 limit) and a gap in the wind
+        # record (NaN: the sea threshold is undefined, nothing is demanded of slot 0 there; the swell clauses still apply)
+        specs.append(("P2T3_reduced5_wind(0,0,10)", 2, 3, "reduced", all_cfgs(menus=[0, 3], winds=[5.0]), [0.0, 0.0, 10.0]))
+        specs.append(("P2T3_reduced5_wind(10,0,0)", 2, 3, "reduced", all_cfgs(menus=[0, 3], winds=[10.0]), [10.0, 0.0, 0.0]))
+        specs.append(("P2T3_reduced5_wind(nan,10,nan)", 2, 3, "reduced", all_cfgs(menus=[0], winds=[10.0]), [float("nan"), 10.0, float("nan")]))
     items = []
     for (name, P, T, kind, cfgs, wser) in specs:
         for cfg in cfgs:
